@@ -3,36 +3,51 @@
    A history [cs] is any list of calls (Client.Do/DoTimeout/DoDeadline/DoRedirects/Get, HostClient.Do/DoRedirects/Get on any
    stand-alone HostClient, LBClient.Do with any choice of balanced client), each with any redirect chain, any server behaviour per
    attempt (answer keep-alive / answer and close / close without answering -> retry), executed on one fresh world whose stand-alone
-   HostClients [hcs] have arbitrary (Addr, IsTLS).  [tagged] only says that the bookkeeping field r_via of a request names the API
+   HostClients [hcs] have arbitrary (Addr, IsTLS, WriteTimeout != 0) and whose Client has WriteTimeout != 0 iff [cwt]: every theorem
+   quantifies over the timeout configuration, i.e. over both branches of dialAddr (lazy tls.Client / explicit tlsClientHandshake).  [tagged] only says that the bookkeeping field r_via of a request names the API
    it is submitted through.  [obs_dials]/[obs_writes] project the model trace to what Spec/SchemeSpec.v talks about. *)
 From FH Require Import Model.Base Gen.GenC21 Model.Scheme Spec.SchemeSpec Proof.SchemeProof.
 Open Scope N_scope.
 
 (* every https request is written only to a connection that was wrapped in TLS when it was dialled, and — through Client — dialled
    to the request's own authority (default port 443 added when missing) *)
-Theorem C21_https_only_on_tls : forall hcs cs, Forall tagged cs ->
-  https_only_on_tls (obs_dials (trace hcs cs)) (obs_writes (trace hcs cs)).
+Theorem C21_https_only_on_tls : forall cwt hcs cs, Forall tagged cs ->
+  https_only_on_tls (obs_dials (trace cwt hcs cs)) (obs_writes (trace cwt hcs cs)).
 Proof. exact https_only. Qed.
 Print Assumptions C21_https_only_on_tls.
 
 (* a request that is not https is only written to a connection dialled without TLS: never to one created (and pooled) for https,
    even when host name and address coincide *)
-Theorem C21_http_never_on_tls_pool : forall hcs cs, Forall tagged cs ->
-  http_never_on_tls (obs_dials (trace hcs cs)) (obs_writes (trace hcs cs)).
+Theorem C21_http_never_on_tls_pool : forall cwt hcs cs, Forall tagged cs ->
+  http_never_on_tls (obs_dials (trace cwt hcs cs)) (obs_writes (trace cwt hcs cs)).
 Proof. exact http_never. Qed.
 Print Assumptions C21_http_never_on_tls_pool.
 
 (* connection ids are dialled once: "the connection's TLS flag / address" above is well defined *)
-Theorem C21_dials_functional : forall hcs cs, Forall tagged cs -> dial_functional (obs_dials (trace hcs cs)).
+Theorem C21_dials_functional : forall cwt hcs cs, Forall tagged cs -> dial_functional (obs_dials (trace cwt hcs cs)).
 Proof. exact dials_functional. Qed.
 Print Assumptions C21_dials_functional.
 
+(* the two branches of dialAddr: an https request travels on the lazy tls.Client wrapper when the sending client's WriteTimeout is 0 and
+   on the wrapper tlsClientHandshake completed the handshake on otherwise — in both configurations a TLS connection, never the raw one *)
+Theorem C21_https_write_kind : forall cwt hcs cs cid r, Forall tagged cs ->
+  In (EWrite cid r) (trace cwt hcs cs) -> https_scheme (r_scheme r) = true ->
+  exists (addr : bytes) (wt : bool), In (EDial cid addr (if wt then KTLSHandshaked else KTLSLazy)) (trace cwt hcs cs) /\
+                  (r_via r = ViaClient -> wt = cwt) /\
+                  (r_via r <> ViaClient -> exists i, nth_error hcs i = Some (addr, true, wt)).
+Proof. exact https_write_kind. Qed.
+Print Assumptions C21_https_write_kind.
+
+Theorem C21_dialAddr_tls_iff_isTLS : forall isTLS wt, kind_tls (dialAddr isTLS wt) = isTLS.
+Proof. exact kind_tls_dialAddr. Qed.
+Print Assumptions C21_dialAddr_tls_iff_isTLS.
+
 (* HostClient: whatever reaches the wire through a stand-alone HostClient (directly, after redirects, or via LBClient) was sent by a
    HostClient whose IsTLS equals the request's https-ness, on a connection to that HostClient's Addr with the same TLS flag *)
-Theorem C21_hostclient_writes_match : forall hcs cs cid r, Forall tagged cs ->
-  In (EWrite cid r) (trace hcs cs) -> r_via r <> ViaClient ->
-  exists i addr, nth_error hcs i = Some (addr, https_scheme (r_scheme r)) /\
-                 In (EDial cid addr (https_scheme (r_scheme r))) (trace hcs cs).
+Theorem C21_hostclient_writes_match : forall cwt hcs cs cid r, Forall tagged cs ->
+  In (EWrite cid r) (trace cwt hcs cs) -> r_via r <> ViaClient ->
+  exists i addr wt, nth_error hcs i = Some (addr, https_scheme (r_scheme r), wt) /\
+                    In (EDial cid addr (dialAddr (https_scheme (r_scheme r)) wt)) (trace cwt hcs cs).
 Proof. exact hostclient_writes_match. Qed.
 Print Assumptions C21_hostclient_writes_match.
 
@@ -41,7 +56,7 @@ Print Assumptions C21_hostclient_writes_match.
 Theorem C21_hostclient_refuses_mismatch : forall i w hc r reps rest count maxred,
   nth_error (w_hcs w) i = Some hc -> hc_tls hc <> https_scheme (r_scheme r) ->
   follow (host_do i) w ((r, reps) :: rest) count maxred =
-    ({| w_m := w_m w; w_ms := w_ms w; w_hcs := set_nth i hc (w_hcs w); w_next := w_next w |},
+    ({| w_cwt := w_cwt w; w_m := w_m w; w_ms := w_ms w; w_hcs := set_nth i hc (w_hcs w); w_next := w_next w |},
      [ERefuse r ESchemeMismatch], OErr ESchemeMismatch).
 Proof. exact host_refuses. Qed.
 Print Assumptions C21_hostclient_refuses_mismatch.
@@ -62,29 +77,30 @@ Definition rq (id : N) (s h : string) (v : via) : req := {| r_id := id; r_scheme
 
 (* http and https for the same host name, then a redirect chain http -> https -> http: two connections, never mixed *)
 Example C21_ex_mixed :
-  trace [] [CClient 0 [(rq 0 "http" "a.test" ViaClient, [])]; CClient 0 [(rq 1 "https" "a.test" ViaClient, [])];
+  trace false [] [CClient 0 [(rq 0 "http" "a.test" ViaClient, [])]; CClient 0 [(rq 1 "https" "a.test" ViaClient, [])];
             CClient 8 [(rq 2 "http" "a.test" ViaClient, []); (rq 3 "https" "a.test" ViaClient, []); (rq 4 "http" "a.test" ViaClient, [])]]
-  = [EDial 0 (s2b "a.test:80") false; EWrite 0 (rq 0 "http" "a.test" ViaClient);
-     EDial 1 (s2b "a.test:443") true; EWrite 1 (rq 1 "https" "a.test" ViaClient);
+  = [EDial 0 (s2b "a.test:80") KRaw; EWrite 0 (rq 0 "http" "a.test" ViaClient);
+     EDial 1 (s2b "a.test:443") KTLSLazy; EWrite 1 (rq 1 "https" "a.test" ViaClient);
      EWrite 0 (rq 2 "http" "a.test" ViaClient); EWrite 1 (rq 3 "https" "a.test" ViaClient); EWrite 0 (rq 4 "http" "a.test" ViaClient)].
 Proof. vm_compute. reflexivity. Qed.
 
-(* same address a.test:443 reached as http://a.test:443 and https://a.test: separate connections *)
+(* same address a.test:443 reached as http://a.test:443 and https://a.test, Client.WriteTimeout > 0 (explicit handshake branch):
+   separate connections *)
 Example C21_ex_same_addr :
-  trace [] [CClient 0 [(rq 0 "http" "a.test:443" ViaClient, [])]; CClient 0 [(rq 1 "https" "a.test" ViaClient, [])];
+  trace true [] [CClient 0 [(rq 0 "http" "a.test:443" ViaClient, [])]; CClient 0 [(rq 1 "https" "a.test" ViaClient, [])];
             CClient 0 [(rq 2 "http" "a.test:443" ViaClient, [])]]
-  = [EDial 0 (s2b "a.test:443") false; EWrite 0 (rq 0 "http" "a.test:443" ViaClient);
-     EDial 1 (s2b "a.test:443") true; EWrite 1 (rq 1 "https" "a.test" ViaClient);
+  = [EDial 0 (s2b "a.test:443") KRaw; EWrite 0 (rq 0 "http" "a.test:443" ViaClient);
+     EDial 1 (s2b "a.test:443") KTLSHandshaked; EWrite 1 (rq 1 "https" "a.test" ViaClient);
      EWrite 0 (rq 2 "http" "a.test:443" ViaClient)].
 Proof. vm_compute. reflexivity. Qed.
 
 (* a plain HostClient redirected to https stops; a TLS HostClient asked for http refuses *)
 Example C21_ex_hostclient :
-  trace [(s2b "a.test:80", false); (s2b "a.test:443", true)]
+  trace false [(s2b "a.test:80", false, true); (s2b "a.test:443", true, true)]
         [CHost 0 8 [(rq 0 "http" "a.test" ViaHost, []); (rq 1 "https" "a.test" ViaHost, []); (rq 2 "http" "a.test" ViaHost, [])];
          CHost 1 0 [(rq 3 "http" "a.test" ViaHost, [])]; CLB 1 (rq 4 "https" "a.test" ViaLB, [RFail; RKeep])]
-  = [EDial 0 (s2b "a.test:80") false; EWrite 0 (rq 0 "http" "a.test" ViaHost); ERefuse (rq 1 "https" "a.test" ViaHost) ESchemeMismatch;
+  = [EDial 0 (s2b "a.test:80") KRaw; EWrite 0 (rq 0 "http" "a.test" ViaHost); ERefuse (rq 1 "https" "a.test" ViaHost) ESchemeMismatch;
      ERefuse (rq 3 "http" "a.test" ViaHost) ESchemeMismatch;
-     EDial 1 (s2b "a.test:443") true; EWrite 1 (rq 4 "https" "a.test" ViaLB);
-     EDial 2 (s2b "a.test:443") true; EWrite 2 (rq 4 "https" "a.test" ViaLB)].
+     EDial 1 (s2b "a.test:443") KTLSHandshaked; EWrite 1 (rq 4 "https" "a.test" ViaLB);
+     EDial 2 (s2b "a.test:443") KTLSHandshaked; EWrite 2 (rq 4 "https" "a.test" ViaLB)].
 Proof. vm_compute. reflexivity. Qed.
